@@ -6,7 +6,7 @@
                    type_map[key] and the thunks are evaluated against the emitted type map).
    Executable definitions only (proofs: Proofs/SchemaGenP.v). *)
 From Coq Require Import List String Ascii ZArith Bool Arith.
-From AC Require Import Base.Strs Base.Sexp Model.PyRepr.
+From AC Require Import Base.Strs Base.Sexp Model.PyRepr Model.Names.
 Import ListNotations.
 Local Open Scope string_scope.
 Local Open Scope list_scope.
@@ -254,6 +254,19 @@ Definition IMPORTS : list (chars * list chars) :=
   [(s2l "graphql", GRAPHQL_IMPORTS); (s2l "graphql.type.schema", [s2l "TypeMap"]);
    (s2l "typing", [s2l "cast"; s2l "List"])].
 Definition BUILTIN_NAMES : list chars := flat_map snd IMPORTS.
+
+(* settings.py GraphQLSchemaSettings.__post_init__ (since 18e873d), the part about the two names:
+     assert_string_is_valid_python_identifier  (isidentifier and not iskeyword; ASCII names here)
+     assert_name_is_not_reserved_in_schema_module (constants.RESERVED_VARIABLE_NAMES =
+        frozenset(GRAPHQL_IMPORTS + TYPE_MAP_IMPORTS + TYPING_IMPORTS))
+     schema_variable_name != type_map_variable_name
+   A configuration failing it is refused with InvalidConfiguration before anything is read or written. *)
+Definition RESERVED_VARIABLE_NAMES : list chars := BUILTIN_NAMES.
+Definition ident_ok (n : chars) : bool := py_identifier n && negb (iskeyword n).
+Definition settings_ok (tm sn : chars) : bool :=
+  ident_ok sn && ident_ok tm &&
+  negb (mem_chars sn RESERVED_VARIABLE_NAMES) && negb (mem_chars tm RESERVED_VARIABLE_NAMES) &&
+  negb (chars_eqb sn tm).
 
 Definition gen_module (S : fschema) (tm sn : chars) : pymod :=
   let body := [ {| as_target := tm; as_ann := s2l "TypeMap"; as_value := gen_type_map S tm |};
@@ -596,6 +609,15 @@ Definition eval_module (m : pymod) : option fschema :=
   | _ => None
   end.
 
+(* main.graphql_schema for a .py target: refuse, or write the module *)
+Definition strategy_py (S : fschema) (tm sn : chars) : option pymod :=
+  if settings_ok tm sn then Some (gen_module S tm sn) else None.
+
+(* names read by the module (annotations are evaluated at module level) and names its imports bind *)
+Definition reads (m : pymod) : list chars :=
+  flat_map (fun a => as_ann a :: names_of (as_value a)) (m_body m).
+Definition imported (m : pymod) : list chars := flat_map snd (m_imports m).
+
 Definition assign_targets (m : pymod) : list chars := map as_target (m_body m).
 
 (* ---------- well-formedness (what a valid graphql-core schema object graph guarantees) ---------- *)
@@ -855,9 +877,11 @@ Definition run_schemagen (e : sexp) : sexp :=
       match fschema_of_sexp s with
       | Some sch =>
           let m := gen_module sch (s2l tm) (s2l sn) in
-          L [sB (wf_fschema sch (s2l tm)); pymod_to_sexp m;
+          L [sB (wf_gen dv_val sch); pymod_to_sexp m;
              sRes fschema_to_sexp (eval_module m); fschema_to_sexp (strip_std sch)]
       | None => sErr "gen: bad schema" end
+  | L [A "settings"; A tm; A sn] =>
+      L [sB (settings_ok (s2l tm) (s2l sn)); sB (ident_ok (s2l tm)); sB (ident_ok (s2l sn))]
   | L [A "eval"; m] =>
       match pymod_of_sexp m with
       | Some m => L [sRes fschema_to_sexp (eval_module m); sList sC (assign_targets m)]
